@@ -126,7 +126,7 @@ def stream_classes(ctx):
 
 
 def r3(ctx, R):
-    R.rule("C16.R3", "the stream writer encodes UTF-8 and flushes; the server is given binary stdin/stdout", floor=3, confirmed=3)
+    R.rule("C16.R3", "the stream writer encodes UTF-8 and flushes; the server is given binary stdin/stdout", floor=2, confirmed=3)
     for c in stream_classes(ctx):
         f = ctx.m.funcs[c.methods["write"]]
         param = f.params[1] if len(f.params) > 1 else None
@@ -286,7 +286,7 @@ def r4(ctx, R):
 
 
 def r5(ctx, R):
-    R.rule("C16.R5", "the body is cut by bytes, then decoded", floor=2, confirmed=2)
+    R.rule("C16.R5", "the body is cut by bytes, then decoded", floor=1, confirmed=2)
     for c in stream_classes(ctx):
         f = ctx.m.funcs[c.methods["read"]]
         rets = [n for n in ctx.m.walk_own(f.node) if isinstance(n, ast.Return) and n.value is not None]
